@@ -28,6 +28,7 @@ type FuncOutcome struct {
 	Notes   []string
 	Results []*OblResult
 	Dropped []string // Houdini candidates dropped
+	seedFailed bool
 	Kept    []string
 	Iter    int
 }
@@ -36,7 +37,8 @@ type FuncOutcome struct {
 type Runner struct {
 	Solver  *smt.Solver
 	Workers int
-	Skip    func(id string) bool // obligations not attempted (recorded as undecided)
+	Skip    func(o *govc.Oblig) bool // obligations not attempted (recorded as undecided / not selected)
+	candBudget time.Duration
 }
 
 func (r *Runner) solveAll(obs []*govc.Oblig) []*OblResult {
@@ -55,7 +57,7 @@ func (r *Runner) solveAll(obs []*govc.Oblig) []*OblResult {
 			defer wg.Done()
 			defer func() { <-sem }()
 			q := queries[i]
-			if r.Skip != nil && !o.Canary && o.Cand < 0 && r.Skip(o.ID) {
+			if r.Skip != nil && !o.Canary && o.Cand < 0 && r.Skip(o) {
 				out[i] = &OblResult{O: o, R: smt.Result{Status: "skipped"}, Query: q}
 				return
 			}
@@ -64,7 +66,11 @@ func (r *Runner) solveAll(obs []*govc.Oblig) []*OblResult {
 				return
 			}
 			if o.Cand >= 0 {
-				out[i] = &OblResult{O: o, R: r.Solver.CheckBudget(q, 2*time.Second), Query: q}
+				b := 2 * time.Second
+				if r.candBudget > 0 {
+					b = r.candBudget
+				}
+				out[i] = &OblResult{O: o, R: r.Solver.CheckBudget(q, b), Query: q}
 				return
 			}
 			out[i] = &OblResult{O: o, R: r.Solver.Check(q), Query: q}
@@ -74,10 +80,58 @@ func (r *Runner) solveAll(obs []*govc.Oblig) []*OblResult {
 	return out
 }
 
+// VerifyFunctionSeeded starts Houdini from a recorded set of surviving
+// candidates ("loopkey: desc"): everything else is disabled up front. If a
+// seeded candidate no longer proves (the code changed), the full search is run.
+func (r *Runner) VerifyFunctionSeeded(p *govc.Program, fi *govc.FuncInfo, opt govc.Options, kept []string) *FuncOutcome {
+	if len(kept) == 0 {
+		return r.VerifyFunction(p, fi, opt)
+	}
+	keep := map[string]bool{}
+	for _, k := range kept {
+		keep[k] = true
+	}
+	probe := opt
+	probe.Disabled = map[string]map[string]bool{}
+	res := p.VerifyFunc(fi, probe)
+	if res.Reject != "" {
+		return r.VerifyFunction(p, fi, opt)
+	}
+	if len(res.HeapKeys) > 0 {
+		probe.HeapKeys = res.HeapKeys
+		res = p.VerifyFunc(fi, probe)
+	}
+	seeded := opt
+	seeded.HeapKeys = probe.HeapKeys
+	seeded.Disabled = map[string]map[string]bool{}
+	for key, descs := range res.Candidates {
+		for _, d := range descs {
+			if !keep[key+": "+d] {
+				if seeded.Disabled[key] == nil {
+					seeded.Disabled[key] = map[string]bool{}
+				}
+				seeded.Disabled[key][d] = true
+			}
+		}
+	}
+	r.candBudget = 8 * time.Second
+	out := r.verifyFrom(p, fi, seeded)
+	r.candBudget = 0
+	if out.seedFailed {
+		return r.VerifyFunction(p, fi, opt)
+	}
+	return out
+}
+
 // VerifyFunction runs Houdini over the auto-candidates, then solves the rest.
 func (r *Runner) VerifyFunction(p *govc.Program, fi *govc.FuncInfo, opt govc.Options) *FuncOutcome {
-	out := &FuncOutcome{Key: fi.Key}
 	opt.Disabled = map[string]map[string]bool{}
+	return r.verifyFrom(p, fi, opt)
+}
+
+func (r *Runner) verifyFrom(p *govc.Program, fi *govc.FuncInfo, opt govc.Options) *FuncOutcome {
+	out := &FuncOutcome{Key: fi.Key}
+	seededRun := r.candBudget > 0
 	var res *govc.FuncResult
 	for iter := 0; iter < 60; iter++ {
 		out.Iter = iter + 1
@@ -122,12 +176,18 @@ func (r *Runner) VerifyFunction(p *govc.Program, fi *govc.FuncInfo, opt govc.Opt
 				if !opt.Disabled[key][cr.O.CandDesc] {
 					opt.Disabled[key][cr.O.CandDesc] = true
 					changed = true
+					if seededRun {
+						out.seedFailed = true
+					}
 				}
 			}
 		}
-		if !changed {
+		if !changed || out.seedFailed {
 			break
 		}
+	}
+	if out.seedFailed {
+		return out
 	}
 	for key, descs := range res.Candidates {
 		for _, d := range descs {
